@@ -295,6 +295,16 @@ class Opaque:
         return f"<opaque {self.kind} {self.attrs}>"
 
 
+class SliceVal:
+    """a[lo:hi] as a value (only inside tuple subscripts of two-dimensional arrays and in slice stores)"""
+
+    def __init__(self, lo, hi):
+        self.lo, self.hi = lo, hi
+
+    def full(self):
+        return self.lo is None and self.hi is None
+
+
 class EnumVal:
     def __init__(self, cls, name, value):
         self.cls, self.name, self.value = cls, name, value
@@ -419,6 +429,13 @@ class OpaqueOf(Shape):
         self.kind, self.attrs = kind, attrs
 
 
+class DictOf(Shape):
+    """dict with exactly the given (string) keys, in this order; values of the given shapes."""
+
+    def __init__(self, **entries):
+        self.entries = entries
+
+
 class IntMapOf(Shape):
     def __init__(self, val=Real):
         self.val = val
@@ -485,6 +502,8 @@ def fresh(shape, name, wf, env=None):
         return PyList(Seq(n, get, np=shape.np, tag=("key", z3.Int(uid(name + ".key")))), np=shape.np)
     if isinstance(shape, ObjOf):
         return PyObj(shape.cls, {k: fresh(s, f"{name}.{k}", wf) for k, s in shape.fields.items()})
+    if isinstance(shape, DictOf):
+        return PyDict({k: fresh(v, f"{name}[{k}]", wf) for k, v in shape.entries.items()})
     if isinstance(shape, OpaqueOf):
         return Opaque(shape.kind, {k: fresh(s, f"{name}.{k}", wf) for k, s in shape.attrs.items()})
     if isinstance(shape, IntMapOf):
